@@ -17,7 +17,7 @@ def is_trivial(line, mo):
 
 
 def generate(rng, tier):
-    nstreams = 4 if tier == "quick" else 300
+    nstreams = 10 if tier == "quick" else 300
     for kind in ("bytes", "file", "socket"):
         for skip in (0, 2):
             yield pu.frame_line(skip, pu.REAL_TRIM, kind, -1, []), "empty"
@@ -58,7 +58,7 @@ def generate(rng, tier):
                 for kind in ("bytes", "file", "socket"):
                     chunks = [data] if kind == "bytes" else pu.cut(rng, data, rng.choice(["one", 3, "rand"]))
                     yield pu.frame_line(0, pu.REAL_TRIM, kind, -1 if len(chunks) <= 1 else 0, chunks), "special-header"
-    nrand = 150 if tier == "quick" else 100000
+    nrand = 600 if tier == "quick" else 100000
     for _ in range(nrand):
         ln = rng.choice([1, 5, 6, 7, 8, 13, 14, 40, 300])
         # bias the length field small so that random bytes contain "packets"
